@@ -488,6 +488,103 @@ def jobs_for(check, mirror, rb, crate, crate_num, U, jobs, tier, KNOWN_PRED):
                 describe=desc, budget_s=900, known_predicates=KNOWN_PRED, prefer=lambda v: z3.And([U.replayable_pref(c) for c in v.get("_calls", [])] or [z3.BoolVal(True)])))
     quantifier_jobs()
 
+    # ------------------------------------------------------------------------------------------------------------------ for: order of the iteration contexts
+    def for_order_job():
+        """build_for itself is executed on an AST with two iteration contexts, each a list or a range, then the closure it returns:
+        the FIRST written variable must be the slowest one whatever the kinds of the domains"""
+        from mir.models import call_fn_value
+        AST = crate.enums.get("AstNode") or {}
+
+        def setup(ex, st):
+            sref, ctxs = scope_value(ex, st, 1)
+            kinds = [ex.fresh_int(st, "isize", "ctx%d_kind" % k, constrain=False) for k in range(2)]
+            for k in kinds:
+                ex.assume(st, z3.Or(k.e == AST["IterationContextSingle"], k.e == AST["IterationContextRange"]))
+            box = lambda v, tag: Ref(ex.new_cell(st, v, tag))
+            ics = []
+            for k in range(2):
+                name = box(En("AstNode", z3.IntVal(AST["Name"]), {"Name": (Opaque("Name", z3.IntVal(k)),)}), "name")
+                e = lambda tag: box(Opaque("AstExpr", (tag, k)), "expr")
+                ics.append(En("AstNode", kinds[k].e, {"IterationContextSingle": (name, e("list")), "IterationContextRange": (name, e("start"), e("end"))}))
+            lhs = En("AstNode", z3.IntVal(AST["IterationContexts"]), {"IterationContexts": (VecV(z3.IntVal(2), ics, "AstNode"),)})
+            rhs = Opaque("AstExpr", ("body", 0))
+
+            def body(ex, st, argv):
+                sc = ex.read(st, sref.cell, sref.projs)
+                vec = sc.fields[0]
+                n = ex.concrete(vec.len)
+                top = vec.items[n - 1].fields[0]
+                m = ex.concrete(top.len)
+                snap = {}
+                for ent in top.items[:m]:
+                    key = ex.concrete(ent.fields[0].e)
+                    v = ent.fields[1]
+                    if isinstance(v, En) and "Number" in v.alts and isinstance(v.alts["Number"][0], Opaque):
+                        snap[key] = v.alts["Number"][0].e
+                st.log.append(("iter", snap))
+                yield st, En("Value", z3.IntVal(NULL), {"Null": (none(),)})
+
+            def m_build_evaluator(ex, st, callee, args, dest_ty):
+                node = deref(ex, st, args[0])
+                if not (isinstance(node, Opaque) and node.sort == "AstExpr"):
+                    raise MirUnsupported("build_evaluator on %r" % (node,))
+                tag, k = node.e
+                num = lambda v: En("Value", z3.IntVal(NUM), {"Number": (nv.num_const(v),)})
+                if tag == "body":
+                    f = FnV("@model", (body,))
+                elif tag == "list":
+                    items = [En("Value", z3.IntVal(NUM), {"Number": (Opaque("FeelNumber", z3.IntVal(100 * (k + 1) + j)),)}) for j in range(2)]
+                    f = FnV("@const", (En("Value", z3.IntVal(LIST), {"List": (Adt("struct", "Values", (VecV(z3.IntVal(2), items, "Value"),)),)}),))
+                else:
+                    f = FnV("@const", (num(1 if tag == "start" else 2),))
+                yield st, En("Result", z3.IntVal(0), {"Ok": (Ref(ex.new_cell(st, f, "box")),)})
+            inputs = dict(kind0=kinds[0].e, kind1=kinds[1].e, _model=m_build_evaluator)
+
+            def runner(ex, st):
+                ex.models.insert(0, (re.compile(r"^build_evaluator$"), m_build_evaluator))
+                for o in ex.run("build_for", [Ref(ex.new_cell(st, lhs, "lhs")), Ref(ex.new_cell(st, rhs, "rhs"))], st):
+                    if o.kind != "return":
+                        yield o
+                        continue
+                    r = o.value
+                    if ex.concrete(r.disc) != 0:
+                        yield Outcome("return", o.st, value=None)
+                        continue
+                    yield from call_fn_value(ex, o.st, r.alts["Ok"][0], [sref])
+            return runner, None, inputs
+
+        def post(ex, o, v):
+            if o.value is None:
+                return [("the for expression is built", z3.BoolVal(False))]
+            iters = [e[1] for e in o.st.log if e[0] == "iter"]
+            single = [v["kind%d" % k] == AST["IterationContextSingle"] for k in range(2)]
+            dom = lambda k, j: z3.If(single[k], z3.IntVal(100 * (k + 1) + j), z3.IntVal(1 + j))
+            want = [(dom(0, a), dom(1, b)) for a in range(2) for b in range(2)]
+            props = [("the body is evaluated once per pair", z3.BoolVal(len(iters) == 4))]
+            if len(iters) == 4 and all(0 in s and 1 in s for s in iters):
+                props.append(("pairs come with the FIRST written variable slowest, whatever the kinds of the two domains",
+                              z3.And([z3.And(s[0] == a, s[1] == b) for s, (a, b) in zip(iters, want)])))
+            else:
+                props.append(("every evaluation binds both variables", z3.BoolVal(False)))
+            return props
+
+        def desc(m, v):
+            name = {AST["IterationContextSingle"]: "list", AST["IterationContextRange"]: "range"}
+            return {"first": name[model_value(m, v["kind0"])], "second": name[model_value(m, v["kind1"])]}
+
+        def replay(i, rb):
+            d = {"list": "[%d, %d]", "range": "1..2"}
+            d0 = d[i["first"]] % (100, 101) if i["first"] == "list" else "1..2"
+            d1 = d[i["second"]] % (200, 201) if i["second"] == "list" else "1..2"
+            expr = "for x in %s, y in %s return [x, y]" % (d0, d1)
+            vals = lambda t, base: [base, base + 1] if t == "list" else [1, 2]
+            want = "[" + ", ".join("[%d, %d]" % (a, b) for a in vals(i["first"], 100) for b in vals(i["second"], 200)) + "]"
+            got = _native_value(rb, expr)
+            return got.replace(" ", "") != want.replace(" ", ""), "%s -> %s, specified %s" % (expr, got, want)
+        jobs.append(lambda c: decide(c, crate, "ops/for_order", setup, post, replay, rb, models=MODELS, unwind=60, describe=desc, min_paths=4, max_cex=4,
+                                     known_predicates=KNOWN_PRED))
+    for_order_job()
+
     # ------------------------------------------------------------------------------------------------------------------ arithmetic dispatch
     def arith_jobs():
         DU = U.dec
